@@ -314,7 +314,7 @@ func c13StateProbe(history [][]string, password, overTLS bool) (st c13St, clause
 			switch h[0] {
 			case "SELECT":
 				n, err := strconv.Atoi(h[1])
-				if model.auth && err == nil && n < 0 {
+				if model.auth && err == nil && (n < 0 || len(h) > 2) {
 					// a negative index: whether it is accepted is not stated; the connection's
 					// database changes iff the client was told OK
 					if vals[i].Equal(resp.S("OK")) {
@@ -373,7 +373,7 @@ func c13StateProbe(history [][]string, password, overTLS bool) (st c13St, clause
 }
 
 func c13State(c *fw.Ctx) {
-	events := [][]string{{"SELECT", "0"}, {"SELECT", "1"}, {"SELECT", "7"}, {"SELECT", "abc"}, {"SELECT", "2147483648"}, {"SELECT", "4294967297"}, {"SELECT", "9223372036854775807"}, {"SELECT", "-1"}, {"SELECT", "-7"}, {"GET", "k"}, {"AUTH", c13Pass}, {"AUTH", "wrong"}, {"RECONNECT"}}
+	events := [][]string{{"SELECT", "0"}, {"SELECT", "1"}, {"SELECT", "7"}, {"SELECT", "abc"}, {"SELECT", "2147483648"}, {"SELECT", "4294967297"}, {"SELECT", "9223372036854775807"}, {"SELECT", "-1"}, {"SELECT", "-7"}, {"SELECT", "5", "now"}, {"SELECT", "6", "6"}, {"GET", "k"}, {"AUTH", c13Pass}, {"AUTH", "wrong"}, {"RECONNECT"}}
 	for _, variant := range []int{0, 1, 2, 3} {
 		password, overTLS := variant&1 == 1, variant&2 == 2
 		if !c.Mine() {
@@ -641,7 +641,7 @@ func init() {
 	fw.Register(&fw.Prop{
 		ID:          "C13",
 		Level:       "model_checking",
-		Rule:        "(STATE) breadth-first closure of one connection's state machine over the events {SELECT 0/1/7, SELECT 2^31 / 2^32+1 / 2^63-1, SELECT -1 / -7 (the database follows the reply), SELECT abc, GET, AUTH password, AUTH wrong, disconnect+reconnect}, with and without a configured password, over a plain connection and over one that arrived through the TLS port, canonical state (database, authorized) observed inside the handler through a probe; (SCHED) two connections through the real Start/accept loop/connection goroutines, each running one of 8 scripts (SELECT/SET/GET, AUTH then SELECT, failing SELECT, failed AUTH after a good one, reconnect) x with/without password = 128 scenarios, every schedule within deviation bound 2 (thorough: three connections, and bound 3); inside every handler call the issuing client's own model (database, authorization, connection object identity, per-connection user data in the sync.Map) is compared with what the handler sees. Plus: Server.Stop as one more thread while composite commands (several handler calls each, every call a scheduling point) are in flight, and the required password removed and replaced by the application between the requests of an unauthenticated connection. Per-connection user data must survive AUTH attempts of every form (one and two arguments, right and wrong). The multi-connection programs of the C08 runtime part are judged here too: a connection's authorization changes through its own AUTH only, whatever other connections and the application do to the required password.",
+		Rule:        "(STATE) breadth-first closure of one connection's state machine over the events {SELECT 0/1/7, SELECT 2^31 / 2^32+1 / 2^63-1, SELECT -1 / -7 and SELECT with a surplus argument (the database follows the reply), SELECT abc, GET, AUTH password, AUTH wrong, disconnect+reconnect}, with and without a configured password, over a plain connection and over one that arrived through the TLS port, canonical state (database, authorized) observed inside the handler through a probe; (SCHED) two connections through the real Start/accept loop/connection goroutines, each running one of 8 scripts (SELECT/SET/GET, AUTH then SELECT, failing SELECT, failed AUTH after a good one, reconnect) x with/without password = 128 scenarios, every schedule within deviation bound 2 (thorough: three connections, and bound 3); inside every handler call the issuing client's own model (database, authorization, connection object identity, per-connection user data in the sync.Map) is compared with what the handler sees. Plus: Server.Stop as one more thread while composite commands (several handler calls each, every call a scheduling point) are in flight, and the required password removed and replaced by the application between the requests of an unauthenticated connection. Per-connection user data must survive AUTH attempts of every form (one and two arguments, right and wrong). The multi-connection programs of the C08 runtime part are judged here too: a connection's authorization changes through its own AUTH only, whatever other connections and the application do to the required password.",
 		Assumptions: []string{"sequentially consistent interleavings; deviation (delay) bounded", "client counts above 3 are not explored"},
 		Run:         c13Run,
 		Replay:      c13Replay,
